@@ -24,6 +24,15 @@ func (dbgMon) AfterTx(w *World, tx *TxCtx) {
 	if tx.Resp.Code != 0 {
 		fmt.Printf("TXLOG %d/%d code=%d\n%s\n", tx.Block, tx.Idx, tx.Resp.Code, tx.Resp.Log)
 	}
+	if os.Getenv("SIM_DEBUG_EVENTS") != "" {
+		for _, e := range tx.Resp.Events {
+			fmt.Printf("EVENT %d/%d %s", tx.Block, tx.Idx, e.Type)
+			for _, a := range e.Attributes {
+				fmt.Printf(" %s=%s", a.Key, a.Value)
+			}
+			fmt.Println()
+		}
+	}
 }
 
 // TestDumpSeed writes the event log of one generated run to SIM_DUMP (debug aid).
